@@ -9,7 +9,7 @@ using namespace mcrt;
 using namespace std::chrono_literals;
 
 namespace {
-constexpr int MAXID = 12;
+constexpr int MAXID = 48;
 int g_dtor[MAXID], g_cb[MAXID], g_ext[MAXID], g_added[MAXID];
 int g_cb_when_dtor[MAXID];
 int g_in_destroy[8];  // per fiber: inside a destroyObjects call
@@ -316,6 +316,24 @@ void make_items(const Options& o, std::vector<Item>& items)
                 }
             }
         }
+    }
+    // ---- scale: many objects reapable in one pass (batching, thresholds), both classes, with and without a callback
+    for (int n : {9, 17, 33}) {
+        if (!thorough && n == 33) continue;
+        std::vector<int> t(n, ADD);
+        t.push_back(ADD_EXT);  // one object that must survive the passes
+        t.push_back(DESTROY0);
+        t.push_back(SIZE);
+        t.push_back(DESTROY0);
+        t.push_back(DROP);
+        t.push_back(DESTROY0);
+        for (int single = 0; single < 2; single++)
+            for (int cb : {CB_COUNT, CB_NONE}) add(single, cb, RE_NONE, {t}, 0, 0);
+    }
+    {
+        std::vector<int> t(9, ADD);
+        t.push_back(DESTROY0);
+        add(false, CB_COUNT, RE_NONE, {t, {DESTROY0, DESTROY0}}, 1, 2);
     }
     // ---- concurrent part (locked class)
     std::vector<std::vector<int>> roles = {{ADD}, {ADD_EXT, DROP}, {ADD, ADD}, {DESTROY0}, {DESTROY0, DESTROY0}, {SIZE}, {DESTROY_10MS},
